@@ -35,6 +35,7 @@ pub fn install_panic_hook() {
             .location()
             .map(|l| format!(" @{}:{}", l.file(), l.line()))
             .unwrap_or_default();
+        eprintln!("panic: {}{}", msg, loc);
         if let Ok(mut g) = PANIC_MSG.lock() {
             *g = format!("{}{}", msg, loc);
         }
